@@ -209,6 +209,58 @@ func errorDiscipline(w *core.World, fn *ssa.Function, c ssa.CallInstruction) (st
 	return verdict, detail
 }
 
+// helperMayReturnNil: the returned error e is the result of a repository helper (a clean-up that "returns what went
+// wrong") that can return the nil constant although it was handed the failure: one of its returns carries the nil
+// constant and is not confined to the 'parameter == nil' outcome of a test of the parameter the failure is passed as.
+// The failure of the collaborator is then replaced by the outcome of the clean-up: success when the clean-up worked.
+func helperMayReturnNil(e ssa.Value, failure ssa.Value) bool {
+	var c *ssa.Call
+	switch x := e.(type) {
+	case *ssa.Call:
+		c = x
+	case *ssa.Extract:
+		c, _ = x.Tuple.(*ssa.Call)
+	}
+	if c == nil {
+		return false
+	}
+	g := c.Call.StaticCallee()
+	if g == nil || g.Blocks == nil || g.Pkg == nil || !strings.HasPrefix(g.Pkg.Pkg.Path(), core.Module) {
+		return false
+	}
+	// the parameters the failure is passed as
+	passed := map[*ssa.Parameter]bool{}
+	args := c.Call.Args
+	for i, a := range args {
+		if i < len(g.Params) && (a == failure || core.HasOrigin(a, failure)) {
+			passed[g.Params[i]] = true
+		}
+	}
+	if len(passed) == 0 {
+		return false // not a helper that is given the failure: its result is judged by the other rules
+	}
+	for _, ret := range core.Returns(g) {
+		ge := errorOperand(ret)
+		if ge == nil || !core.IsNilConst(ge) {
+			continue
+		}
+		confined := false
+		for _, gd := range core.GuardsOf(ret) {
+			x, nilOnTrue, ok := core.NilTest(gd.If.Cond)
+			if !ok {
+				continue
+			}
+			if p, isP := x.(*ssa.Parameter); isP && passed[p] && gd.CondTrue() == nilOnTrue {
+				confined = true
+			}
+		}
+		if !confined {
+			return true
+		}
+	}
+	return false
+}
+
 func errorDisciplineLocal(w *core.World, fn *ssa.Function, c ssa.CallInstruction) (string, string) {
 	idx, ok := callReturnsError(c)
 	if !ok {
@@ -252,7 +304,7 @@ func errorDisciplineLocal(w *core.World, fn *ssa.Function, c ssa.CallInstruction
 			if e == nil {
 				return false // function without error result: handled by caller of this helper
 			}
-			return core.IsNilConst(e) || !mayBeNonNil(w, e, 0)
+			return core.IsNilConst(e) || !mayBeNonNil(w, e, 0) || helperMayReturnNil(e, v)
 		})
 		if reach {
 			verdict = "swallowed"
